@@ -7,12 +7,13 @@ Local Open Scope N_scope.
 Definition in_run (r : N) (e : N * N * N) : bool :=
   let '(lo, hi, _) := e in (lo <=? r) && (r <=? hi).
 
-(* unicode.ToLower *)
+(* unicode.ToLower: ASCII fast path exactly as in the Go source, else the regenerated table *)
 Definition to_lower (r : N) : N :=
-  match find (in_run r) to_lower_table with
-  | Some (lo, _, img) => img + (r - lo)
-  | None => r
-  end.
+  if r <? 128 then (if (65 <=? r) && (r <=? 90) then r + 32 else r)
+  else match find (in_run r) to_lower_table with
+       | Some (lo, _, img) => img + (r - lo)
+       | None => r
+       end.
 
 (* the runes that regexp sees after strings.ToLower(url) *)
 Definition lower_runes (s : bytes) : list N := map to_lower (decode_runes s).
